@@ -40,7 +40,7 @@ func init() {
 		ID:    "C14",
 		Title: "Histograms conserve samples, bin them by their stated edges, and rank correctly",
 		Run:   c14Run,
-		Kinds: []core.Kind{core.ReplayOf("add1", c14Add1), core.ReplayOf("b2v", c14B2V), core.ReplayOf("hist", c14HistCheck)},
+		Kinds: []core.Kind{core.ReplayOf("add1", c14Add1), core.ReplayOf("b2v", c14B2V), core.ReplayOf("hist", c14HistCheck), core.ReplayOf("pair", c14Pair)},
 		Rule: "LinearHist shapes nbins x 5 ranges and LogHist shapes b in 2..10 x m in 1..4 x 3 maxima; single Add of every value of an edge alphabet (every edge +-0,1,2 ulp, mid-points, 16 positions in the strip one bin width below the first edge, far values, 0 and negatives for LogHist); " +
 			"explicit-state BFS over Add histories of depth<=6 on a 7-value alphabet (state = counter vector read through Counts, de-duplicated), with HistogramQuantile evaluated for every q=j/total +-1ulp, 0 and 1 in every state; structured streams of 500 Adds. " +
 			"Non-trivial: the value lies within one bin of an edge, or the state holds >=2 samples.",
@@ -180,6 +180,56 @@ func c14Add1(c *C14Add1, r *core.Rec) {
 	r.Outcome(uint64(moved+5) * 7919)
 	if !ok {
 		r.Fail("binning-"+map[bool]string{true: "log", false: "linear"}[c.Shape.Log], "shape %+v: Add(%v) was counted in %s, its place is %s", c.Shape, c.X, name(moved), name(acc[0]))
+	}
+}
+
+// C14Pair is a history over two histograms of different shapes used alternately:
+// every value is added to A and then to B (and looked up with At on a LogHist);
+// each Add moves exactly one counter of its own histogram, the right one.
+type C14Pair struct {
+	A  C14Shape  `json:"a"`
+	B  C14Shape  `json:"b"`
+	Xs []float64 `json:"adds"`
+}
+
+func c14Pair(c *C14Pair, r *core.Rec) {
+	hs := [2]stats.Histogram{c.A.make(), c.B.make()}
+	shapes := [2]*C14Shape{&c.A, &c.B}
+	r.NT()
+	for _, x := range c.Xs {
+		for k, h := range hs {
+			before := c14Read(h)
+			nb := len(before.bins)
+			h.Add(x)
+			r.Trans(1)
+			after := c14Read(h)
+			moved, n := -2, 0
+			if after.under != before.under {
+				moved, n = -1, n+1
+			}
+			if after.over != before.over {
+				moved, n = nb, n+1
+			}
+			for i := range after.bins {
+				if after.bins[i] != before.bins[i] {
+					moved, n = i, n+1
+				}
+			}
+			if n != 1 || after.total() != before.total()+1 {
+				r.Fail("pair-conservation", "two histograms used alternately: Add(%v) to %+v moved %d counters", x, *shapes[k], n)
+				return
+			}
+			ok := false
+			for _, a := range c14Where(h, nb, x) {
+				if a == moved {
+					ok = true
+				}
+			}
+			if !ok {
+				r.Fail("pair-binning", "two histograms %+v and %+v used alternately: Add(%v) to the %s one was counted in counter %d, its place is %v", c.A, c.B, x, []string{"first", "second"}[k], moved, c14Where(h, nb, x))
+				return
+			}
+		}
 	}
 }
 
@@ -552,6 +602,22 @@ func c14Run(c *core.Ctx) {
 		r.State(c14BFS(&hs[i], depth, r))
 	}
 	r.Bound("histories", fmt.Sprintf("all Add histories of depth<=%d over a 7-value alphabet on %d shapes", depth, len(hs)))
+	// two histograms of different shapes used alternately (every ordered pair of the
+	// small shapes, same kind and mixed), on the union of their edge alphabets
+	pc := &C14Pair{}
+	for i := range hs {
+		for j := range hs {
+			if i == j || !c.Mine() {
+				continue
+			}
+			xs := append(append([]float64{}, c14HistAlphabet(&hs[i])...), c14HistAlphabet(&hs[j])...)
+			xs = append(xs, xs...) // every value a second time, after the others
+			pc.A, pc.B, pc.Xs = hs[i], hs[j], xs
+			r.Case("pair", pc)
+			r.Try(func() { c14Pair(pc, r) })
+		}
+	}
+	r.Bound("pairs", fmt.Sprintf("every ordered pair of %d small shapes used alternately", len(hs)))
 	// long structured streams
 	hc := &C14Hist{}
 	for i := range shapes {
